@@ -1110,7 +1110,7 @@ impl<'a> Serializer<'a> {
 
     /// Returns whether or not text was written
     fn visit_stmt(&mut self, stmt: CssStmt) -> SassResult<bool> {
-        if stmt.is_invisible() {
+        if stmt.is_invisible_in(self.options.is_compressed()) {
             return Ok(false);
         }
 
